@@ -993,8 +993,8 @@ impl Vm {
 
                     let callable = self.pop();
                     match callable.unsafe_as_function_reference() {
-                        FunctionReference::Normal(ref name) => {
-                            let function_idx = self.get_function_idx(name) as usize;
+                        FunctionReference::Normal(_, function_idx) => {
+                            let function_idx = function_idx as usize;
 
                             // TODO: unify code with 'Op::Call'?
                             self.frames.push(CallFrame {
